@@ -199,6 +199,7 @@ def main(pid, rep=None, finish=True):
         rep.set("replayed_per_action", per_action)
         # ---- B2: random grammar streams -----------------------------------------------------------------------------
         b2(pid, rep, rnd, own, 3000 if thorough else 500, d)
+        b2_traces(pid, rep, rnd, own, 2000 if thorough else 400)
         rep.assume("create_connection is served by a fake transport obeying the asyncio contract; TLS itself is exercised by the live checks")
         rep.assume("the pin store is a real SQLite file; certificates are supplied as DER through the transport's ssl_object")
         rep.set("exhaustive", False)
@@ -310,6 +311,170 @@ def b2(pid, rep, rnd, own, count, d):
             h.close()
     rep.add("random_streams", n)
     rep.add("traces_validated_against_impl", n)
+
+
+FLAGS_CC = ["NothingBeforeVerify", "ChangedGetsNothing", "PromptOnClose", "Faithful", "Capped", "SegIndep"]
+
+
+def classified_script(rnd, k):
+    """A random server stream together with its classification in the specification's terms (the input abstraction:
+    which header class, whether the declared charset is usable, whether the delivered body decodes with it)."""
+    kind = rnd.choice(["ok"] * 8 + ["badStatus", "badUtf8"])
+    st = rnd.choice([20, 20, 20, 20, 21, 22, 29, 10, 11, 30, 31, 40, 44, 51, 53, 59, 60, 62, 69, 5, 9, 70, 99, 100])
+    mime = rnd.choice(["text/gemini", "text/plain", "TEXT/Gemini", " text/gemini ", "application/octet-stream", "image/png", "", "text/x", "textual/x"])
+    cs = rnd.choice(CODECS) if rnd.random() < 0.6 else None
+    meta = mime + ("; lang=en" if rnd.random() < 0.3 else "") + ((rnd.choice(["; charset=%s", ";charset=%s", "; CHARSET=%s", "; charset=\"%s\""]) % cs) if cs is not None else "")
+    if kind == "ok":
+        header = ("%d %s" % (st, meta)).encode("utf-8")
+    elif kind == "badStatus":
+        header = (rnd.choice(["2x", "", "ab", "2.0", "0x14", "--"]) + " " + meta).encode("utf-8")
+    else:
+        header = ("%d %s" % (st, meta)).encode("utf-8") + rnd.choice([b"\xff", b"\xc3", b"\xfe\xff"])
+    body = bytes(rnd.getrandbits(8) for _ in range(rnd.choice([0, 1, 5, 40, 300]))) if rnd.random() < 0.4 else \
+        "text b\u00fcdy \u2603\r\nmore\n".encode("utf-8") * rnd.choice([0, 1, 3])
+    if b"\r\n" in header:
+        header = header.replace(b"\r\n", b"  ")
+    crlf = rnd.random() < 0.93
+    ends = rnd.choice(["fin", "fin", "fin", "rst", "never"])
+    total = len(header) + (2 if crlf else 0) + len(body)
+    send_len = total if rnd.random() < 0.75 else rnd.randint(0, total)
+    cuts = [rnd.randint(1, max(1, send_len)) for _ in range(rnd.randint(0, 6))] if send_len else []
+    # classification ------------------------------------------------------------------------------------------------
+    m0 = meta.split(";")[0].strip().lower()
+    text = m0.startswith("text/") or m0 == ""
+    charset, body_ok = "none", True
+    if text and kind == "ok":
+        label = "utf-8"
+        if "charset=" in meta.lower():
+            for part in meta.split(";"):
+                part = part.strip()
+                if part.lower().startswith("charset="):
+                    label = part.split("=", 1)[1].strip().strip("\"'")
+                    break
+        data = (header + (b"\r\n" if crlf else b"") + body)[:send_len]
+        delivered = data[len(header) + 2:] if crlf else b""
+        try:
+            delivered.decode(label)
+            charset = "known"
+        except UnicodeDecodeError:
+            charset, body_ok = "known", False
+        except (LookupError, ValueError):
+            charset = "unknown"
+    return script("cls%d" % k, header, crlf, kind, st, text, charset, body if crlf else b"", body_ok, ends, send_len=send_len, extra_cuts=cuts)
+
+
+def b2_traces(pid, rep, rnd, own, count):
+    """B2 by trace specification: the same kind of random runs, recorded and validated by TLC against ClientConnTrace."""
+    import tempfile
+    traces = []
+    metas = []
+    for k in range(count):
+        scr = classified_script(rnd, k)
+        rec = scr["rec"]
+        if not rec["crlf"]:
+            # without a terminator everything is header: lengths follow the specification's convention
+            pass
+        tofu = rnd.choice(["off", "first", "match", "match", "changed", "unreadable"])
+        ep = rnd.choice(["get", "upload"])
+        h = ClientHarness(scr, tofu, ep, verify_ssl=(k % 4 == 0))
+        steps = []
+
+        def log(act, p=0):
+            o = h.project()
+            steps.append({"act": act, "p": p, "sentReq": o["sentReq"], "caller": o["caller"], "cliClosed": o["cliClosed"], "lost": o["lost"]})
+        try:
+            if tofu != "off":
+                log("Verify")
+            if h.outcome() == "waiting":
+                pts = sorted(set(c for c in rec["cuts"] if rnd.random() < 0.6) | {rec["sendLen"]}) if rec["sendLen"] else []
+                for p_ in pts:
+                    if h.tr.closing or h.tr.lost:
+                        break
+                    if p_ > h.rx:
+                        h.do("Rx", p_)
+                        log("Rx", p_)
+                if not h.tr.lost and rec["ends"] in ("fin", "rst") and not h.tr.closing and h.rx == rec["sendLen"]:
+                    h.do("PeerEnds")
+                    log("PeerEnds")
+            if h.tr is not None and h.tr.pending_lost is not None and not h.tr.lost:
+                h.do("LostAfterClose")
+                log("LostAfterClose")
+            if h.outcome() == "waiting":
+                h.do("Deadline")
+                log("Deadline")
+                if h.tr.pending_lost is not None and not h.tr.lost:
+                    h.do("LostAfterClose")
+                    log("LostAfterClose")
+        finally:
+            h.close()
+        r_ = dict(rec)
+        r_["cuts"] = sorted(set(rec["cuts"]) | {s_["p"] for s_ in steps if s_["act"] == "Rx"})
+        traces.append({"sc": r_, "tofu": tofu, "ep": ep, "steps": steps})
+        metas.append(scr["data"][:70])
+    fd, tpath = tempfile.mkstemp(prefix="vf-cct-", suffix=".json")
+    with os.fdopen(fd, "w") as f:
+        json.dump(traces, f)
+    try:
+        tr, reached = tlc.validate_traces("ClientConnTrace", "ClientConnTrace.cfg", tpath, timeout=1200)
+    finally:
+        os.unlink(tpath)
+    rep.tlc("ClientConnTrace", tr)
+    acc = 0
+    for i, t in enumerate(traces, 1):
+        info = reached.get(i)
+        if info is None:
+            raise tlc.TLCError("ClientConnTrace did not reach trace %d" % i)
+        bad = set()
+        for (l, fl) in info["bad"]:
+            for k_, ok in enumerate(fl):
+                if not ok:
+                    bad.add(FLAGS_CC[k_])
+        if info["max"] == len(t["steps"]) + 1 and not bad:
+            acc += 1
+            continue
+        at = info["max"]
+        step = t["steps"][at - 1] if at - 1 < len(t["steps"]) else None
+        desc = "recorded call (header %r, script %s, tofu=%s, ep=%s): matched %d of %d steps; next step %s" % (
+            metas[i - 1], {k_: v for k_, v in t["sc"].items() if k_ != "cuts"}, t["tofu"], t["ep"], at - 1, len(t["steps"]), step)
+        mine = sorted(bad & own)
+        if mine:
+            rep.violation({"formula": mine[0], "trace": True}, "%s falsified on a recorded call: %s" % (mine, desc), t)
+        elif step is not None:
+            # the specification cannot explain the step: request bytes are C11's, the caller's outcome is C13's
+            prev = t["steps"][at - 2] if at >= 2 else {"sentReq": t["tofu"] == "off", "caller": "waiting"}
+            formula = "NothingBeforeVerify" if (step["sentReq"] and t["tofu"] in ("changed", "unreadable")) else \
+                ("PromptOnClose" if step["caller"] == "waiting" and step["lost"] else "SegIndep")
+            if formula in own:
+                rep.violation({"formula": formula, "trace": True, "rejected": True},
+                              "recorded call is not a behaviour of ClientConn: %s" % desc, t)
+            else:
+                rep.drifted("recorded call rejected by ClientConnTrace: " + desc)
+        else:
+            rep.drifted("recorded call: invariants %s false (not this property's): %s" % (sorted(bad), desc))
+    rep.add("recorded_calls_validated_by_tlc", len(traces))
+    rep.add("recorded_calls_accepted", acc)
+    rep.add("traces_validated_against_impl", len(traces))
+    if rep.tier == "thorough" and traces:
+        # binding self-test: corrupt what the caller got in accepted traces - ClientConnTrace must reject each of them
+        bad_traces = []
+        for t in traces[:60]:
+            if not t["steps"]:
+                continue
+            t2 = json.loads(json.dumps(t))
+            last = t2["steps"][-1]
+            last["caller"] = "response" if last["caller"] != "response" else "error:Timeout"
+            bad_traces.append(t2)
+        fd, tpath = tempfile.mkstemp(prefix="vf-cct-", suffix=".json")
+        with os.fdopen(fd, "w") as f:
+            json.dump(bad_traces, f)
+        try:
+            tr2, reached2 = tlc.validate_traces("ClientConnTrace", "ClientConnTrace.cfg", tpath, timeout=600)
+        finally:
+            os.unlink(tpath)
+        wrongly = [i for i, t in enumerate(bad_traces, 1) if reached2.get(i, {"max": 0})["max"] == len(t["steps"]) + 1]
+        rep.set("binding_selftest_clientconntrace", {"corrupted": len(bad_traces), "wrongly_accepted": len(wrongly)})
+        if wrongly:
+            raise tlc.TLCError("binding self-test: ClientConnTrace accepted %d corrupted traces" % len(wrongly))
 
 
 if __name__ == "__main__":
